@@ -579,6 +579,12 @@ class ResidueMonitor:
         self.threads = {t.ident for t in threading.enumerate()}
         self.registry = cache_sizes()["_TYPE_REGISTRY"][0]
         self.steps = 0
+        import mimetypes
+        mimetypes.init() if not mimetypes.inited else None     # stdlib lazy init is not the library's doing
+        self.interp = interp_snapshot()
+        self.lib = library_state()
+        self.pypdf = pypdf_identities()
+        self.reported = set()
 
     def _fd_growth(self):
         now = fd_table()
@@ -645,6 +651,54 @@ class ResidueMonitor:
                         f"process-global state changed by the extraction of {name} ({outcome}): {diff}", rep)
             self.world.reset()
             self.snap.update({k: v for k, v in globals_snapshot(self.world).items() if k != "aes_provider_patched"})
+        # interpreter / stdlib globals
+        now = interp_snapshot()
+        for f in now:
+            if f in self.interp and now[f] != self.interp[f] and ("i", f) not in self.reported:
+                self.reported.add(("i", f))
+                r2 = dict(rep, field=f, before=self.interp[f], after=now[f])
+                ctx.finding(f"residue:interpreter:{f}:{key}",
+                            f"extraction of {name} ({outcome}) changed {f}: {self.interp[f]!r} -> {now[f]!r} and did not restore it", r2)
+        # harness-side repair of what can be put back, so that one defect does not contaminate the later steps
+        if now["sys.getrecursionlimit"] != self.interp.get("sys.getrecursionlimit", now["sys.getrecursionlimit"]):
+            sys.setrecursionlimit(self.interp["sys.getrecursionlimit"])
+        if now["os.getcwd"] != self.interp.get("os.getcwd", now["os.getcwd"]):
+            os.chdir(self.interp["os.getcwd"])
+        if now["tempfile.tempdir"] != self.interp.get("tempfile.tempdir", now["tempfile.tempdir"]):
+            tempfile.tempdir = self.interp["tempfile.tempdir"]
+        self.interp = interp_snapshot()
+        # module-level / class-level state of the library itself
+        lib = library_state()
+        for k2, sig in lib.items():
+            old_sig = self.lib.get(k2)
+            if old_sig is None or sig == old_sig:
+                continue
+            mname, attr = k2
+            if _allowed(mname, attr.split(".")[0]):
+                if sig[0] == "c" and old_sig[0] == "c" and sig[1] == old_sig[1]:
+                    continue          # same object, contents governed by the modelled discipline
+                if attr == "_CHAR_MAP_PATCH_DEPTH":
+                    continue          # value checked by globals_snapshot
+            if ("l", k2) in self.reported:
+                continue
+            self.reported.add(("l", k2))
+            r2 = dict(rep, module=mname, attribute=attr, before=old_sig, after=sig)
+            ctx.finding(f"residue:library-global:{mname.split('.')[-1]}.{attr}:{key}",
+                        f"extraction of {name} ({outcome}) changed module-level state {mname}.{attr}: {old_sig} -> {sig}", r2)
+        self.lib = lib
+        # identity of pypdf's functions (monkeypatching of the third-party library)
+        pid = pypdf_identities()
+        changed = sorted(f"{m}.{a}" for (m, a), i in pid.items() if (m, a) in self.pypdf and self.pypdf[(m, a)] != i)
+        if changed:
+            aes_names = ("aes_ecb_encrypt", "aes_ecb_decrypt", "aes_cbc_encrypt", "aes_cbc_decrypt", "CryptAES")
+            if all(any(x.endswith("." + n) or ("." + n + ".") in x for n in aes_names) for x in changed):
+                ctx.finding("aes-fallback-patch:permanent",
+                            "after extracting an AES-encrypted PDF pypdf's fallback crypto provider stays patched for the rest "
+                            f"of the process (patch_pypdf_fallback_aes is one-way); first seen after {name}", dict(rep, changed=changed))
+            else:
+                ctx.finding(f"residue:pypdf-functions:{key}", f"extraction of {name} ({outcome}) left pypdf functions replaced: {changed[:6]}",
+                            dict(rep, changed=changed))
+        self.pypdf = pid
         for cname, (size, cap) in cache_sizes().items():
             over = (cap is not None and size > cap) or (cname == "_TYPE_REGISTRY" and size != self.registry)
             if over:
@@ -677,6 +731,323 @@ def damaged_variants(ctx, src: Path, thorough_extra=0):
     return out
 
 
+def zip_member_variants(src: Path):
+    """Structural damage of ZIP containers (docx/xlsx/pptx/odt/ods/odp/epub): the archive stays a valid ZIP, one XML
+    member is cut in half / emptied / removed, so the failure happens late, inside the format's own walker."""
+    import zipfile
+    data = src.read_bytes()
+    try:
+        zin = zipfile.ZipFile(io.BytesIO(data))
+        infos = zin.infolist()
+    except Exception:  # noqa
+        return []
+    xml = [i for i in infos if i.filename.endswith((".xml", ".rels", ".xhtml", ".opf", ".html"))]
+    if not xml:
+        return []
+    big = max(xml, key=lambda i: i.file_size)
+    picks = list(dict.fromkeys([big.filename] + [i.filename for i in xml[:2]]))[:3]
+    out = []
+    try:
+        members = {i.filename: zin.read(i.filename) for i in infos}
+    except Exception:  # noqa   (encrypted / damaged member: not a template for structural damage)
+        return []
+    for victim in picks:
+        for mode in ("half", "unclosed", "removed"):
+            buf = io.BytesIO()
+            with zipfile.ZipFile(buf, "w") as zout:
+                for i in infos:
+                    payload = members[i.filename]
+                    if i.filename == victim:
+                        if mode == "removed":
+                            continue
+                        payload = payload[: len(payload) // 2] if mode == "half" else payload.rstrip()[:-12]
+                    zout.writestr(i, payload, compress_type=i.compress_type)
+            out.append((f"zip:{victim}:{mode}", buf.getvalue()))
+    return out
+
+
+W_NS = "http://schemas.openxmlformats.org/wordprocessingml/2006/main"
+M_NS_URI = "http://schemas.openxmlformats.org/officeDocument/2006/math"
+
+
+def formula_xml(kind: str, n: int) -> str:
+    """OMML formulas; kind 'radical' is Word's malformed shape: m:rad whose m:e holds only the opening bracket."""
+    r = lambda t: f"<m:r><m:t>{t}</m:t></m:r>"
+    if kind == "radical":
+        body = "".join(f"<m:rad><m:radPr><m:degHide m:val=\"1\"/></m:radPr><m:deg/><m:e>{r('(')}</m:e></m:rad>"
+                       + "".join(r(f"a{j}+") for j in range(6)) + r(f"b{i})") + r(f"+c{i}") for i in range(n))
+    else:
+        body = "".join(f"<m:f><m:num>{r('x' + str(i))}</m:num><m:den>{r('y')}</m:den></m:f>"
+                       f"<m:sSup><m:e>{r('z')}</m:e><m:sup>{r(str(i))}</m:sup></m:sSup>" for i in range(n))
+    return f'<m:oMath xmlns:m="{M_NS_URI}">{body}</m:oMath>'
+
+
+def make_formula_docx(path: str, kind: str, nformulas: int):
+    import zipfile
+    paras = "".join(f"<w:p><w:r><w:t>formula {i}</w:t></w:r>{formula_xml(kind, 3).replace(' xmlns:m=' + chr(34) + M_NS_URI + chr(34), '')}</w:p>"
+                    for i in range(nformulas))
+    doc = (f'<?xml version="1.0" encoding="UTF-8" standalone="yes"?><w:document xmlns:w="{W_NS}" xmlns:m="{M_NS_URI}">'
+           f"<w:body>{paras}</w:body></w:document>")
+    ct = ('<?xml version="1.0" encoding="UTF-8"?><Types xmlns="http://schemas.openxmlformats.org/package/2006/content-types">'
+          '<Default Extension="rels" ContentType="application/vnd.openxmlformats-package.relationships+xml"/>'
+          '<Default Extension="xml" ContentType="application/xml"/>'
+          '<Override PartName="/word/document.xml" ContentType="application/vnd.openxmlformats-officedocument.wordprocessingml.document.main+xml"/></Types>')
+    rels = ('<?xml version="1.0" encoding="UTF-8"?><Relationships xmlns="http://schemas.openxmlformats.org/package/2006/relationships">'
+            '<Relationship Id="rId1" Type="http://schemas.openxmlformats.org/officeDocument/2006/relationships/officeDocument" Target="word/document.xml"/></Relationships>')
+    with zipfile.ZipFile(path, "w", zipfile.ZIP_DEFLATED) as z:
+        z.writestr("[Content_Types].xml", ct)
+        z.writestr("_rels/.rels", rels)
+        z.writestr("word/document.xml", doc)
+
+
+def all_code_objects(module):
+    """code objects of every function / method / nested function defined in a module"""
+    import types
+    seen, out = set(), []
+
+    def rec(code):
+        if id(code) in seen:
+            return
+        seen.add(id(code))
+        out.append(code)
+        for c in code.co_consts:
+            if isinstance(c, types.CodeType):
+                rec(c)
+    for v in vars(module).values():
+        if isinstance(v, types.FunctionType) and v.__module__ == module.__name__:
+            rec(v.__code__)
+        elif isinstance(v, type) and v.__module__ == module.__name__:
+            for cv in vars(v).values():
+                f = getattr(cv, "__func__", cv)
+                if isinstance(f, types.FunctionType):
+                    rec(f.__code__)
+    return out
+
+
+class LineGates(Gates):
+    """Gates on EVERY line event of a set of code objects (generic controlled scheduler for pure functions)."""
+
+    def __init__(self, codes):
+        super().__init__(None, {})
+        self.codes = {id(c) for c in codes}
+        self._keep = codes
+
+    def tracer(self, tid):
+        def local(frame, event, arg):
+            if event == "line":
+                self._park(tid, "L")
+            return local
+
+        def glob(frame, event, arg):
+            return local if id(frame.f_code) in self.codes else None
+        return glob
+
+
+def gated_pure_function_check(ctx, tag, module, calls, expected, runs, burst=(1, 40)):
+    """Interleave k threads calling pure library functions at LINE granularity under seeded random schedules;
+    every result must equal the sequential one (results independent of concurrent work)."""
+    codes = all_code_objects(module)
+    rng = ctx.rng
+    for run_no in range(runs):
+        k = len(calls)
+        gates = LineGates(codes)
+        out = [None] * k
+
+        def worker(tid):
+            err = None
+            sys.settrace(gates.tracer(tid))
+            try:
+                out[tid] = calls[tid]()
+            except BaseException as e:  # noqa
+                out[tid] = "exc:" + type(e).__name__
+            finally:
+                sys.settrace(None)
+                gates.finish(tid, err)
+        ths = [threading.Thread(target=worker, args=(t,), daemon=True) for t in range(k)]
+        for t in ths:
+            t.start()
+        gates.wait_settled(range(k))
+        sched = []
+        steps = 0
+        while steps < 200000:
+            with gates.cv:
+                live = [t for t in range(k) if t not in gates.done]
+            if not live:
+                break
+            tid = rng.choice(live)
+            b = rng.randint(*burst)
+            sched.append((tid, b))
+            for _ in range(b):
+                if not gates.grant(tid):
+                    break
+                steps += 1
+        for t in ths:
+            t.join(timeout=5)
+        ctx.case((tag, run_no, tuple(sched[:50])), True, kind=f"line-gated:{tag}")
+        if out != expected:
+            bad = [i for i in range(k) if out[i] != expected[i]]
+            ctx.finding(f"concurrent-interference:{tag}",
+                        f"{tag}: thread {bad[0]} of {k} concurrent calls returns {str(out[bad[0]])[:120]!r}, alone it returns "
+                        f"{str(expected[bad[0]])[:120]!r} (line-level schedule, run {run_no})",
+                        {"schedule(thread,lines)": sched[:400], "got": out, "expected": expected, "threads": k})
+            return False
+    return True
+
+
+def formula_concurrency_checks(ctx, tmpdocs, base_docs):
+    """m:rad malformed-radical formulas converted while other threads convert formulas: (1) omml_to_latex itself
+    under line-gated random schedules, (2) generated DOCX documents under sys.setswitchinterval(1e-6)."""
+    from xml.etree import ElementTree as ET
+    from sharepoint2text.parsing.extractors.util import omml_to_latex as om
+    rad = ET.fromstring(formula_xml("radical", 2))
+    frac = ET.fromstring(formula_xml("plain", 4))
+    calls = [lambda: om.omml_to_latex(rad), lambda: om.omml_to_latex(frac), lambda: om.omml_to_latex(rad)]
+    expected = [c() for c in calls]
+    ctx.extra["formula_expected"] = expected[0][:80]
+    gated_pure_function_check(ctx, "omml_to_latex", om, calls, expected, runs=ctx.n(8, 80))
+    # documents, pre-emptively
+    docs = [d for d in base_docs if "formula_" in d]
+    if docs:
+        sw = sys.getswitchinterval()
+        sys.setswitchinterval(1e-6)
+        mism, lock = [], threading.Lock()
+        try:
+            def work(seed):
+                for i in range(ctx.n(16, 150)):
+                    d = docs[(i + seed) % len(docs)]
+                    got = extract_digest(d)
+                    if got != base_docs[d]:
+                        with lock:
+                            mism.append((d, got))
+            ths = [threading.Thread(target=work, args=(t,)) for t in range(4)]
+            for t in ths:
+                t.start()
+            for t in ths:
+                t.join()
+        finally:
+            sys.setswitchinterval(sw)
+        ctx.case(("formula-docs-preemptive", len(docs)), True, kind="preemptive-formula-docs")
+        if mism:
+            d, got = mism[0]
+            ctx.finding(f"concurrent-interference:{Path(d).name}",
+                        f"{Path(d).name} (OMML formulas) extracted while 3 other threads extract formula documents gives {got}, "
+                        f"isolated baseline {base_docs[d]} ({len(mism)} occurrences)",
+                        {"document": d, "got": got, "baseline": base_docs[d], "threads": 4, "switchinterval": 1e-6})
+
+
+_IMPORT_ORDER_SNIPPET = r"""
+import sys, json, io, os, logging
+logging.disable(logging.CRITICAL)
+sys.path.insert(0, '/verif/tools'); sys.path.insert(0, '/verif/tools/props')
+import mimetypes
+mimetypes.init()
+import c15, sharepoint2text
+from sharepoint2text.parsing import router
+job = json.loads(sys.stdin.read())
+def probe():
+    out = {}
+    for nm in job['names']:
+        try:
+            sup = router.is_supported_file(nm)
+        except Exception as e:
+            sup = 'exc:' + type(e).__name__
+        try:
+            f = router.get_extractor(nm); ex = f.__module__.split('.')[-1] + '.' + f.__name__
+        except Exception as e:
+            ex = 'exc:' + type(e).__name__
+        out[nm] = [sup, ex]
+    for nm, path in job['files'].items():
+        out['read_file:' + nm] = c15.extract_digest(path)
+    return out
+before_state = c15.interp_snapshot(strict_only=True)
+before = probe()
+used = {}
+for path in job['use']:
+    used[os.path.basename(path)] = c15.extract_digest(path)
+after = probe()
+after_state = c15.interp_snapshot(strict_only=True)
+print('RESULT' + json.dumps({'before': before, 'after': after, 'used': used,
+      'state_diff': {k: [repr(before_state[k]), repr(after_state[k])] for k in before_state if before_state[k] != after_state[k]}}))
+"""
+
+
+def import_order_checks(ctx, fx, tmpdocs, damaged_files):
+    """(c) For every lazily imported extractor module: in a FRESH interpreter, router decisions and read_file results
+    for extension-routed, MIME-routed and generic names are taken BEFORE and AFTER the module's first use (one good
+    and one failing document); they must not change and must agree across all orders.  The strict part of the
+    interpreter snapshot (recursion limit, mimetypes tables, locale, environ, cwd, ...) is compared as well."""
+    from concurrent.futures import ThreadPoolExecutor
+    from sharepoint2text.parsing import router
+    names = ["app.log", "conf.yaml", "conf.yml", "setup.ini", "setup.cfg", "nginx.conf", "a.xml", "a.py", "a.unknownext",
+             "noext", "a.txt", "a.csv", "a.json", "a.md", "a.htm", "a.svg", "a.js", "a.css", "a.sh", "a.c", "a.ics", "a.vcf",
+             "a.docx", "a.pdf", "a.tar.gz", "a.odt", "a.eml", "A.LOG", "x.rtf", "a.bat", "a.tex"]
+    files = {}
+    for nm, content in (("app.log", b"2024-01-01 INFO started\n"), ("conf.yaml", b"a: 1\nb: [1, 2]\n"), ("setup.cfg", b"[x]\ny=1\n"),
+                        ("nginx.conf", b"server { listen 80; }\n"), ("notes.txt", b"hello\n"), ("page.xml", b"<a>1</a>\n")):
+        pth = Path(tmpdocs) / ("probe_" + nm)
+        pth.write_bytes(content)
+        files[nm] = str(pth)
+    deep = Path(tmpdocs) / "probe_deep.html"
+    deep.write_bytes(b"<html><body>" + b"<div>" * 1500 + b"deep" + b"</div>" * 1500 + b"</body></html>")
+    files["deep.html"] = str(deep)
+    by_module = {}
+    for p in fx:
+        try:
+            f = router.get_extractor(p)
+        except Exception:  # noqa
+            continue
+        by_module.setdefault(f.__module__, []).append(p)
+    jobs = [("<nothing>", [])]
+    for mod, ps in sorted(by_module.items()):
+        ps = sorted(ps, key=lambda q: os.path.getsize(q))
+        bad = [d for d in damaged_files if Path(d).suffix == Path(ps[0]).suffix][:2]
+        jobs.append((mod.split(".")[-1], [ps[0]] + bad))
+
+    def one(job):
+        tag, use = job
+        p = subprocess.run([sys.executable, "-c", _IMPORT_ORDER_SNIPPET], text=True, capture_output=True, timeout=300,
+                           input=json.dumps({"names": names, "files": files, "use": use}), env=dict(os.environ))
+        m = re.search(r"RESULT(.*)", p.stdout)
+        return tag, use, (json.loads(m.group(1)) if m else {"error": p.stderr[-400:]})
+    with ThreadPoolExecutor(max_workers=16) as ex:
+        results = list(ex.map(one, jobs))
+    ref = None
+    broken = []
+    router_hits, state_hits = [], {}
+    probe_files = sorted(files)
+    for tag, use, r in results:
+        if "error" in r:
+            broken.append(f"{tag}: {r['error'][-150:]}")
+            continue
+        if ref is None:
+            ref = r["before"]          # job <nothing>: no extraction at all before the first probe
+        ctx.case(("import-order", tag, tuple(Path(u).name for u in use)), True, kind="import-order")
+        for which in ("before", "after"):
+            diff = {k: (ref[k], r[which][k]) for k in ref if r[which][k] != ref[k]}
+            if diff:
+                router_hits.append((len(use), which, tag, use, diff))
+                break
+        for f0, (a, b) in r["state_diff"].items():
+            state_hits.setdefault(f0, []).append((len(use), tag, use, r["used"], a, b))
+    if router_hits:
+        n, which, tag, use, diff = min(router_hits, key=lambda x: (x[0], x[2]))
+        k0 = sorted(diff)[0]
+        hist = [Path(u).name for u in use] if (use and which == "after") or use else [f"read_file({x})" for x in probe_files]
+        ctx.finding("history-dependent:router/generic-names",
+                    f"in a fresh process {k0} gives {diff[k0][1]} after the history {hist}, and {diff[k0][0]} with no prior "
+                    f"extraction ({len(diff)} probes differ: {sorted(diff)[:6]}; {len(router_hits)} of {len(results)} orders affected)",
+                    {"fresh_process": True, "history": use or [files[x] for x in probe_files], "then_probe": sorted(diff),
+                     "differences": diff, "orders_affected": sorted(x[2] for x in router_hits)})
+    for f0, hits in state_hits.items():
+        n, tag, use, used, a, b = min(hits, key=lambda x: (x[0], x[1]))
+        ctx.finding(f"residue:interpreter:{f0}:first-use",
+                    f"in a fresh process the extraction of {[Path(u).name for u in use] or ['the probe files ' + str(probe_files)]} "
+                    f"(outcomes {used}) changed {f0}: {a[:90]} -> {b[:90]} ({len(hits)} of {len(results)} orders affected)",
+                    {"fresh_process": True, "extract": use or [files[x] for x in probe_files], "outcomes": used, "before": a, "after": b,
+                     "orders_affected": sorted(h[1] for h in hits)})
+    ctx.obligation("import-order-subprocesses-completed", not broken, "; ".join(broken[:3]))
+
+
 def damaged_input_checks(ctx, mon: ResidueMonitor, fx):
     """Failing (and accidentally still succeeding) inputs for every format that can be damaged cheaply; the
     residue is compared after each single extraction.  The same damaged input is extracted twice in a row:
@@ -695,6 +1066,8 @@ def damaged_input_checks(ctx, mon: ResidueMonitor, fx):
         variants = damaged_variants(ctx, src, thorough_extra=ctx.n(0, 6))
         if ctx.tier == "quick" and src.stat().st_size > 150_000:
             variants = variants[1::2]          # large sources: half of the variants in the quick tier
+        if src.stat().st_size < 150_000 or ctx.tier == "thorough":
+            variants += zip_member_variants(src)
         for tag, data in variants:
             name = f"{src.name}#{tag}"
             path = "damaged/" + src.name
@@ -704,8 +1077,11 @@ def damaged_input_checks(ctx, mon: ResidueMonitor, fx):
                 replay["data"] = data
             first = extract_digest(path, data)
             mon.step(name, first, replay, key=src.name)
-            second = extract_digest(path, data)
-            mon.step(name, second, replay, key=src.name)
+            if tag.startswith("zip:") and ctx.tier == "quick":
+                second = first
+            else:
+                second = extract_digest(path, data)
+                mon.step(name, second, replay, key=src.name)
             if first != second:
                 ctx.finding(f"history-dependent:{name}", f"damaged input {name} gives {first}, then {second} when extracted again",
                             dict(replay, first=first, second=second))
@@ -923,6 +1299,414 @@ def make_documents(src_pdf: str, outdir: str, tier: str = "quick"):
                        timeout=300, env=dict(os.environ))
     m = re.search(r"RESULT(.*)", p.stdout)
     return json.loads(m.group(1)) if m else {"error": p.stderr[-400:]}
+
+
+
+# ============================================================================ interpreter / stdlib / library globals
+def _hd(d):
+    """cheap fingerprint of a flat dict / list of hashables (within one process)"""
+    try:
+        return (len(d), hash(frozenset(d.items())) if isinstance(d, dict) else hash(tuple(d)))
+    except TypeError:
+        return _h(d)
+
+
+def _h(x):
+    return hashlib.sha1(repr(sorted(x.items()) if isinstance(x, dict) else x).encode("utf-8", "backslashreplace")).hexdigest()[:12]
+
+
+def interp_snapshot(strict_only=False):
+    """Every piece of interpreter / stdlib global state an extraction could plausibly touch.
+    (codecs search functions are not inspectable from Python: covered by the ast inventory only.)"""
+    import csv, decimal, locale, logging, mimetypes, signal, socket, warnings
+    from xml.etree import ElementTree as ET
+    s = {}
+    s["sys.getrecursionlimit"] = sys.getrecursionlimit()
+    s["sys.path"] = _h(list(sys.path))
+    s["sys.get_int_max_str_digits"] = sys.get_int_max_str_digits() if hasattr(sys, "get_int_max_str_digits") else None
+    s["sys.std-streams/hooks"] = (id(sys.stdout), id(sys.stderr), id(sys.stdin), id(sys.excepthook), id(threading.excepthook),
+                                  id(sys.displayhook))
+    s["mimetypes.inited"] = mimetypes.inited
+    for nm in ("types_map", "common_types", "suffix_map", "encodings_map"):
+        s["mimetypes." + nm] = _hd(getattr(mimetypes, nm))
+    db = mimetypes._db
+    if db is not None:
+        s["mimetypes._db"] = (_hd(db.types_map[0]), _hd(db.types_map[1]), _hd(db.suffix_map), _hd(db.encodings_map))
+    s["locale.setlocale(LC_ALL)"] = locale.setlocale(locale.LC_ALL)
+    s["os.environ"] = _hd(dict(os.environ))
+    s["os.getcwd"] = os.getcwd()
+    s["tempfile.tempdir"] = tempfile.tempdir
+    s["socket.getdefaulttimeout"] = socket.getdefaulttimeout()
+    s["logging.root"] = (logging.root.level, tuple(id(h) for h in logging.root.handlers), logging.root.manager.disable,
+                         id(logging.getLoggerClass()), logging.raiseExceptions)
+    s["decimal.getcontext"] = repr(decimal.getcontext())
+    try:
+        s["signal.handlers"] = tuple(id(signal.getsignal(sg)) if callable(signal.getsignal(sg)) else signal.getsignal(sg)
+                                     for sg in range(1, signal.NSIG) if sg not in (32, 33))
+    except Exception:  # noqa
+        s["signal.handlers"] = None
+    s["csv.field_size_limit"] = csv.field_size_limit()
+    s["csv.list_dialects"] = tuple(sorted(csv.list_dialects()))
+    s["gc"] = (gc.isenabled(), gc.get_threshold())
+    m = os.umask(0)
+    os.umask(m)
+    s["os.umask"] = m
+    if strict_only:
+        return s
+    # touched legitimately by the FIRST import of third-party parsers; compared once everything is warm
+    s["warnings.filters"] = _h([repr(f) for f in warnings.filters])
+    s["ElementTree._namespace_map"] = _h(dict(ET._namespace_map))
+    s["sys.getswitchinterval"] = sys.getswitchinterval()
+    if "PIL.Image" in sys.modules:
+        s["PIL.Image.MAX_IMAGE_PIXELS"] = sys.modules["PIL.Image"].MAX_IMAGE_PIXELS
+    return s
+
+
+# module-level objects of the library that extraction calls are ALLOWED to change, with the discipline that is
+# modelled / proved for them (everything else must be bit-identical after every extraction)
+LIB_MUTABLE_ALLOW = {
+    ("pdf.pdf_extractor", "_FONT_CACHE"): "memo table keyed by (font program, glyph ids): C15_font_cache_keyed_transparent",
+    ("pdf._pypdf_aes_fallback", "_ROUND_KEY_CACHE"): "memo table <= 4 under _ROUND_KEY_CACHE_LOCK: C15_round_keys_atomic_is_memo",
+    ("extractors.serialization", "_TYPE_REGISTRY"): "idempotent lazy fill (size must not change once filled)",
+    ("pdf.pdf_extractor", "_CHAR_MAP_PATCH_ORIGINALS"): "lock + user counter: C15_patch_restored (checked to be [] at rest)",
+    ("pdf.pdf_extractor", "_CHAR_MAP_PATCH_DEPTH"): "lock + user counter: C15_patch_restored (checked to be 0 at rest)",
+    ("extractors.archive_extractor", "_config"): "rebound only by the public configure_archive_extraction() API",
+}
+_CONTAINERS = (dict, list, set, bytearray)
+
+
+def _allowed(mname, attr):
+    return any(mname.endswith(m) and attr == a for (m, a) in LIB_MUTABLE_ALLOW)
+
+
+def _sig(v, deep):
+    import collections
+    import types
+    t = type(v)
+    if t is types.FunctionType or t is type or t is types.BuiltinFunctionType:
+        return ("f", id(v))
+    if t is types.ModuleType:
+        return ("m", v.__name__)
+    if v is None or isinstance(v, (bool, int, float)):
+        return ("v", v)
+    if isinstance(v, (str, bytes)):
+        return ("v", v if len(v) <= 64 else _h(v))
+    if isinstance(v, (tuple, frozenset)):
+        return ("t", len(v), _h(v) if (deep or len(v) <= 32) else None)
+    if isinstance(v, _CONTAINERS) or isinstance(v, collections.deque):
+        return ("c", id(v), len(v), _h(v) if (deep or len(v) <= 32) else None)
+    if isinstance(v, types.ModuleType):
+        return ("m", v.__name__)
+    if hasattr(v, "cache_info") and hasattr(v, "__wrapped__"):
+        return ("lru", id(v))
+    if callable(v) or isinstance(v, type):
+        return ("f", id(v))
+    cls = type(v)
+    if (cls.__module__ or "").startswith("sharepoint2text") and hasattr(v, "__dict__"):
+        return ("o", id(v), cls.__name__, _h({k: _sig(x, False) for k, x in vars(v).items()}))
+    if hasattr(v, "locked"):
+        return ("lock", id(v), v.locked())
+    return ("x", id(v), cls.__name__)
+
+
+_LIBMODS = (0, [])
+
+
+def library_state(deep=False):
+    """vars() of every loaded sharepoint2text module (and of the classes defined there): module-level / class-level
+    scalars by value, containers by identity + size (+ content hash), functions / instances by identity (instances
+    of library classes also by the state of their attributes)."""
+    out = {}
+    global _LIBMODS
+    if _LIBMODS[0] != len(sys.modules):
+        _LIBMODS = (len(sys.modules), [(n, m) for n, m in list(sys.modules.items())
+                                       if m is not None and n.startswith("sharepoint2text") and ".tests" not in n])
+    for mname, mod in _LIBMODS[1]:
+        for k, v in list(vars(mod).items()):
+            if k[:2] == "__":
+                continue
+            out[(mname, k)] = _sig(v, deep)
+            if isinstance(v, type) and v.__module__ == mname:
+                for ck, cv in list(vars(v).items()):
+                    if not ck.startswith("__") and (isinstance(cv, _CONTAINERS) or cv is None or isinstance(cv, (int, str, float, bool))):
+                        out[(mname, k + "." + ck)] = _sig(cv, deep)
+    return out
+
+
+def pypdf_identities():
+    """identity of every module-level function / class (and of the methods of classes) of the loaded pypdf modules"""
+    out = {}
+    for mname, mod in list(sys.modules.items()):
+        if mod is None or not (mname == "pypdf" or mname.startswith("pypdf.")):
+            continue
+        for k, v in list(vars(mod).items()):
+            if callable(v):
+                out[(mname, k)] = id(v)
+                if isinstance(v, type) and (v.__module__ or "").startswith("pypdf._crypt"):
+                    for ck, cv in list(vars(v).items()):
+                        if callable(cv):
+                            out[(mname, k + "." + ck)] = id(cv)
+    return out
+
+
+# ============================================================================ X: ast inventories over the whole library
+GLOBAL_MUTATORS = {
+    "mimetypes.add_type", "mimetypes.init", "sys.setrecursionlimit", "sys.setswitchinterval", "sys.settrace", "sys.setprofile",
+    "sys.set_int_max_str_digits", "sys.path.append", "sys.path.insert", "sys.path.extend", "sys.path.remove",
+    "threading.settrace", "threading.setprofile", "threading.stack_size",
+    "locale.setlocale", "os.chdir", "os.putenv", "os.unsetenv", "os.umask", "os.environ.update", "os.environ.setdefault",
+    "os.environ.pop", "os.environ.clear", "warnings.filterwarnings", "warnings.simplefilter", "warnings.resetwarnings",
+    "logging.basicConfig", "logging.disable", "logging.setLoggerClass", "logging.captureWarnings", "logging.addLevelName",
+    "signal.signal", "signal.alarm", "signal.setitimer", "socket.setdefaulttimeout", "random.seed", "random.setstate",
+    "codecs.register", "codecs.register_error", "xml.etree.ElementTree.register_namespace", "csv.field_size_limit",
+    "csv.register_dialect", "gc.disable", "gc.enable", "gc.set_threshold", "gc.freeze", "decimal.setcontext",
+    "decimal.getcontext", "atexit.register", "importlib.reload", "faulthandler.enable", "resource.setrlimit", "time.tzset",
+    "urllib.request.install_opener", "dotenv.load_dotenv", "tempfile.mkdtemp", "tempfile.mkstemp", "tempfile.mktemp",
+    "tempfile.NamedTemporaryFile",
+}
+# site (file, enclosing def, callee) -> why it is harmless / which model covers it
+GLOBAL_SITE_ALLOW = {
+    ("parsing/extractors/pdf/pdf_extractor.py", "_patched_build_char_map", "setattr(<module>)"):
+        "patch / restore of pypdf's char-map builder under lock + user counter (C15_patch_restored, skeleton obligation)",
+    ("parsing/extractors/pdf/_pypdf_aes_fallback.py", "patch_pypdf_fallback_aes", "<module>.attr = ..."):
+        "one-way AES fallback installation (known finding aes-fallback-patch:permanent; result neutrality: "
+        "C15_aes_result_history_independent)",
+    ("sharepoint_io/run_test_setup.py", "<module>", "dotenv.load_dotenv"): "developer script under __main__ guard, not library code",
+}
+
+
+def _library_files():
+    root = common.REPO / "sharepoint2text"
+    return root, [p for p in sorted(root.rglob("*.py")) if "tests" not in p.relative_to(root).parts]
+
+
+def _aliases(tree):
+    """name -> dotted thing it was imported as (module aliases and from-imports), anywhere in the file"""
+    al = {}
+    for n in ast.walk(tree):
+        if isinstance(n, ast.Import):
+            for a in n.names:
+                al[a.asname or a.name.split(".")[0]] = a.name if a.asname else a.name.split(".")[0]
+        elif isinstance(n, ast.ImportFrom) and n.module:
+            for a in n.names:
+                al[a.asname or a.name] = n.module + "." + a.name
+    return al
+
+
+def _dotted(node, al):
+    parts = []
+    while isinstance(node, ast.Attribute):
+        parts.append(node.attr)
+        node = node.value
+    if not isinstance(node, ast.Name):
+        return None, None
+    base = al.get(node.id, None)
+    parts.append(base if base else node.id)
+    return ".".join(reversed(parts)), (node.id if base else None)
+
+
+def _walk_with_context(tree):
+    """yield (node, enclosing def name, inside `with warnings.catch_warnings()`, under `if __name__ == '__main__'`)"""
+    def rec(node, fn, scoped, main):
+        for ch in ast.iter_child_nodes(node):
+            f2, s2, m2 = fn, scoped, main
+            if isinstance(ch, (ast.FunctionDef, ast.AsyncFunctionDef)):
+                f2 = ch.name if fn == "<module>" else fn + "." + ch.name
+            if isinstance(ch, ast.With) and any("catch_warnings" in ast.unparse(i.context_expr) for i in ch.items):
+                s2 = True
+            if isinstance(ch, ast.If) and "__name__" in ast.unparse(ch.test) and "__main__" in ast.unparse(ch.test):
+                m2 = True
+            yield ch, f2, s2, m2
+            yield from rec(ch, f2, s2, m2)
+    yield from rec(tree, "<module>", False, False)
+
+
+def global_mutation_inventory(ctx):
+    """X-obligation: every call / assignment in the library that changes interpreter-wide, stdlib-wide or
+    third-party-module state must be classified; an unclassified site fails closed."""
+    root, files = _library_files()
+    sites, unknown = [], []
+    for p in files:
+        rel = str(p.relative_to(root))
+        tree = ast.parse(p.read_text(encoding="utf-8"))
+        al = _aliases(tree)
+        loopvars = {}
+        for node, fn, scoped, main in _walk_with_context(tree):
+            if isinstance(node, ast.For):
+                for t in ast.walk(node.target):
+                    if isinstance(t, ast.Name):
+                        loopvars.setdefault(fn, set()).add(t.id)
+        for node, fn, scoped, main in _walk_with_context(tree):
+            callee = None
+            if isinstance(node, ast.Call):
+                d, _ = _dotted(node.func, al)
+                if d in GLOBAL_MUTATORS or (d and d.replace("xml.etree.ElementTree", "ET") in GLOBAL_MUTATORS):
+                    callee = d
+                    if d.startswith("tempfile.") and not main:
+                        # creating a temp object is only a problem when nothing removes it: it must be the context
+                        # expression of a `with` (TemporaryDirectory / NamedTemporaryFile) - mkdtemp/mkstemp never are
+                        callee = d
+                elif isinstance(node.func, ast.Name) and node.func.id in ("setattr", "delattr") and node.args:
+                    a0 = node.args[0]
+                    if isinstance(a0, ast.Name) and (a0.id in al or a0.id in loopvars.get(fn, ())) and a0.id not in ("self", "cls"):
+                        callee = "setattr(<module>)"
+            elif isinstance(node, (ast.Assign, ast.AugAssign, ast.AnnAssign, ast.Delete)):
+                tgts = node.targets if isinstance(node, (ast.Assign, ast.Delete)) else [node.target]
+                for t in tgts:
+                    base = t
+                    while isinstance(base, (ast.Attribute, ast.Subscript)):
+                        base = base.value
+                    if isinstance(t, (ast.Attribute, ast.Subscript)) and isinstance(base, ast.Name) and base.id in al \
+                            and "." not in al[base.id].replace("sharepoint2text.", "", 1)[:0] :
+                        tgt = al[base.id]
+                        # a module (import x / import x.y as z / from pkg import module); from-imported plain names of
+                        # library classes / dataclass instances are not modules
+                        is_mod = any(isinstance(n, ast.Import) and any((a.asname or a.name.split(".")[0]) == base.id for a in n.names)
+                                     for n in ast.walk(tree))
+                        if is_mod:
+                            callee = "os.environ[...] = ..." if ast.unparse(t).startswith(base.id + ".environ") else "<module>.attr = ..."
+            if callee is None:
+                continue
+            cls = None
+            if scoped and callee.startswith("warnings."):
+                cls = "scoped by `with warnings.catch_warnings()`"
+            elif (rel, fn.split(".")[0], callee) in GLOBAL_SITE_ALLOW:
+                cls = GLOBAL_SITE_ALLOW[(rel, fn.split(".")[0], callee)]
+            elif main and (rel, "<module>", callee) in GLOBAL_SITE_ALLOW:
+                cls = GLOBAL_SITE_ALLOW[(rel, "<module>", callee)]
+            elif callee.startswith("tempfile.") and callee.endswith("NamedTemporaryFile"):
+                cls = None
+            sites.append((rel, node.lineno, fn, callee, cls))
+            if cls is None:
+                unknown.append(f"{rel}:{node.lineno} {fn}: {callee}")
+    ctx.extra["global_mutation_sites"] = [f"{r}:{ln} {fn}: {c} -> {k}" for r, ln, fn, c, k in sites]
+    ctx.obligation("X:inventory(global-mutating call sites are classified)", not unknown,
+                   "unclassified site(s): " + "; ".join(unknown[:8]))
+    return unknown
+
+
+MUT_METHODS = {"append", "add", "update", "pop", "popitem", "clear", "setdefault", "extend", "insert", "remove", "discard",
+               "move_to_end", "sort", "reverse", "appendleft", "popleft", "__setitem__", "__delitem__"}
+IMMUTABLE_CALLS = {"frozenset", "tuple", "re.compile", "logging.getLogger", "struct.Struct", "str.maketrans", "min", "max", "int",
+                   "float", "str", "bytes", "len", "threading.Lock", "threading.RLock", "TypeVar", "typing.TypeVar", "''.join",
+                   "os.path.join", "Path", "pathlib.Path", "namedtuple", "collections.namedtuple", "object", "sum", "round",
+                   "ET.QName", "bool", "os.environ.get", "os.getenv"}
+
+
+def shared_mutable_inventory(ctx):
+    """X-obligation: every module-level / class-level mutable object (or instance) in the library is either never
+    mutated anywhere in the library (checked here on the ast: immutable-after-init; the ResidueMonitor re-checks the
+    content at run time), or is on LIB_MUTABLE_ALLOW with a modelled discipline.  Anything else fails closed."""
+    root, files = _library_files()
+    trees = {str(p.relative_to(root)): ast.parse(p.read_text(encoding="utf-8")) for p in files}
+    # names that are mutated somewhere (by any module): X[...] = / del X[...] / X.method() / X op= / global X; X = ...
+    mutated, rebound = set(), set()
+    classes = {}
+    for rel, tree in trees.items():
+        for n in ast.walk(tree):
+            if isinstance(n, ast.ClassDef):
+                classes[n.name] = (rel, n)
+            tgts = []
+            if isinstance(n, (ast.Assign, ast.Delete)):
+                tgts = n.targets
+            elif isinstance(n, (ast.AugAssign, ast.AnnAssign)):
+                tgts = [n.target]
+            for t in tgts:
+                if isinstance(t, ast.Subscript):
+                    b = t.value
+                    nm = b.id if isinstance(b, ast.Name) else (b.attr if isinstance(b, ast.Attribute) else None)
+                    if nm:
+                        mutated.add(nm)
+                if isinstance(n, ast.AugAssign) and isinstance(t, (ast.Name, ast.Attribute)):
+                    mutated.add(t.id if isinstance(t, ast.Name) else t.attr)
+            if isinstance(n, ast.Call) and isinstance(n.func, ast.Attribute) and n.func.attr in MUT_METHODS:
+                b = n.func.value
+                nm = b.id if isinstance(b, ast.Name) else (b.attr if isinstance(b, ast.Attribute) else None)
+                if nm:
+                    mutated.add(nm)
+            if isinstance(n, ast.Global):
+                rebound.update(n.names)
+
+    def class_is_immutable(cname):
+        rel, c = classes[cname]
+        for d in c.decorator_list:
+            u = ast.unparse(d)
+            if "dataclass" in u and "frozen=True" in u:
+                return True
+        for m in c.body:
+            if isinstance(m, (ast.FunctionDef, ast.AsyncFunctionDef)) and m.name not in ("__init__", "__post_init__", "__new__"):
+                for n in ast.walk(m):
+                    tg = []
+                    if isinstance(n, (ast.Assign, ast.Delete)):
+                        tg = n.targets
+                    elif isinstance(n, (ast.AugAssign, ast.AnnAssign)):
+                        tg = [n.target]
+                    for t in tg:
+                        b = t
+                        while isinstance(b, (ast.Attribute, ast.Subscript)):
+                            b = b.value
+                        if isinstance(t, (ast.Attribute, ast.Subscript)) and isinstance(b, ast.Name) and b.id in ("self", "cls"):
+                            return False
+                    if (isinstance(n, ast.Call) and isinstance(n.func, ast.Attribute) and n.func.attr in MUT_METHODS):
+                        b = n.func.value
+                        while isinstance(b, (ast.Attribute, ast.Subscript)):
+                            b = b.value
+                        if isinstance(b, ast.Name) and b.id in ("self", "cls"):
+                            return False
+        return True
+
+    inv, bad = [], []
+    for rel, tree in trees.items():
+        mod = rel[:-3].replace("/", ".")
+        scopes = [("", tree.body)] + [(c.name + ".", c.body) for c in tree.body if isinstance(c, ast.ClassDef)]
+        for prefix, body in scopes:
+            is_dc = False
+            if prefix:
+                cdef = classes[prefix[:-1]][1]
+                is_dc = any("dataclass" in ast.unparse(d) for d in cdef.decorator_list)
+            for st in body:
+                if not isinstance(st, (ast.Assign, ast.AnnAssign)) or st.value is None:
+                    continue
+                tg = st.targets[0] if isinstance(st, ast.Assign) else st.target
+                if not isinstance(tg, ast.Name) or tg.id.startswith("__"):
+                    continue
+                v, kind = st.value, None
+                if isinstance(v, (ast.Dict, ast.List, ast.Set, ast.DictComp, ast.ListComp, ast.SetComp)):
+                    kind = "container"
+                elif isinstance(v, ast.Call):
+                    f = ast.unparse(v.func)
+                    if f in IMMUTABLE_CALLS or (is_dc and f in ("field", "dataclasses.field")):
+                        continue
+                    if f in ("dict", "list", "set", "OrderedDict", "collections.OrderedDict", "defaultdict", "collections.defaultdict",
+                             "deque", "collections.deque", "bytearray", "Counter", "collections.Counter"):
+                        kind = "container"
+                    elif f in classes:
+                        kind = "instance:" + f
+                    else:
+                        kind = "call:" + f
+                if kind is None:
+                    continue
+                name = prefix + tg.id
+                if _allowed(mod, tg.id):
+                    verdict = "allow-listed: " + next(d for (m, a), d in LIB_MUTABLE_ALLOW.items() if mod.endswith(m) and a == tg.id)
+                elif kind == "container" and tg.id not in mutated and tg.id not in rebound:
+                    verdict = "immutable-after-init (no mutating statement on this name anywhere in the library)"
+                elif kind.startswith("instance:") and class_is_immutable(kind[9:]) and tg.id not in rebound:
+                    verdict = "instance of a class whose methods never assign to self (immutable-after-init)"
+                elif kind.startswith("call:") and tg.id not in mutated and tg.id not in rebound:
+                    verdict = "result of a module-level call, never mutated or rebound"
+                else:
+                    verdict = None
+                    bad.append(f"{rel}:{st.lineno} {name} ({kind}) is shared by all extractor calls and is mutated / mutable "
+                               "without a modelled discipline")
+                inv.append(f"{rel}:{st.lineno} {name} [{kind}] -> {verdict}")
+    for g in sorted(rebound):
+        if not any(a == g for (_, a) in LIB_MUTABLE_ALLOW):
+            bad.append(f"`global {g}` rebinding without a modelled discipline")
+    ctx.extra["shared_mutable_inventory"] = len(inv)
+    ctx.extra["shared_mutable_allowlisted"] = [x for x in inv if "allow-listed" in x]
+    ctx.obligation("X:inventory(module/class-level mutable objects have a modelled discipline)", not bad, "; ".join(bad[:6]))
+    return bad
 
 
 # ============================================================================ the check
@@ -1371,6 +2155,26 @@ def workload_checks(ctx, pe, aes, world, docs, base, tmproot, special, aes0=Fals
     pe._FONT_CACHE.clear()
 
 
+def write_damaged_files(fx, tmpdocs):
+    """two failing variants (late failures preferred) of the smallest fixture of every suffix, as files"""
+    out, seen = [], set()
+    for p in sorted((Path(x) for x in fx), key=lambda q: q.stat().st_size):
+        if p.suffix in seen or p.stat().st_size > 400_000:
+            continue
+        seen.add(p.suffix)
+        data = p.read_bytes()
+        vs = zip_member_variants(p)[:2] or []
+        b = bytearray(data)
+        o = len(b) // 2
+        b[o:o + 8] = bytes(x ^ 0xFF for x in b[o:o + 8])
+        vs.append(("flip8", bytes(b)))
+        for i, (tag, d) in enumerate(vs[:2]):
+            q = Path(tmpdocs) / f"dmg{i}_{p.name}"
+            q.write_bytes(d)
+            out.append(str(q))
+    return out
+
+
 def run(ctx):
     import logging
     logging.disable(logging.CRITICAL)
@@ -1437,7 +2241,12 @@ def _run(ctx, tmproot, tmpdocs):
         t = Path(tmpdocs) / "truncated.docx"
         t.write_bytes(Path(docx).read_bytes()[:9000])
         special["truncated_docx"] = str(t)
-    docs = list(dict.fromkeys(fx + [v for k, v in special.items()]))
+    formula_docs = []
+    for kind in ("radical", "plain"):
+        fp = str(Path(tmpdocs) / f"formula_{kind}.docx")
+        make_formula_docx(fp, kind, 12)
+        formula_docs.append(fp)
+    docs = list(dict.fromkeys(fx + formula_docs + [v for k, v in special.items()]))
     t0 = time.time()
     base = isolated_baselines(docs, per_proc=1)
     ctx.extra["baseline_s"] = round(time.time() - t0, 1)
@@ -1448,6 +2257,12 @@ def _run(ctx, tmproot, tmpdocs):
 
     tm = ctx.extra.setdefault("phase_s", {})
     t1 = time.time()
+    global_mutation_inventory(ctx)
+    shared_mutable_inventory(ctx)
+    import_order_checks(ctx, fx, tmpdocs, write_damaged_files(fx, tmpdocs))
+    tm["inventories+import-order"] = round(time.time() - t1, 1); t1 = time.time()
+    formula_concurrency_checks(ctx, tmpdocs, base)
+    tm["formulas"] = round(time.time() - t1, 1); t1 = time.time()
     if sk is not None:
         world = patch_protocol_checks(ctx, pe, sk, notes)
         tm["schedules"] = round(time.time() - t1, 1); t1 = time.time()
